@@ -109,6 +109,13 @@ def templates(tier="quick"):
     T += _mk("rspfile_empty", [v2, v], tags=["rspfile"], depth=d)
     T += _mk("rspfile_becomes_empty", [v, v2], tags=["rspfile"], depth=d)
 
+    # T13c the command with the response file succeeds, but the build is stopped by an error found while finishing it:
+    # the dyndep file it produced does not parse
+    vb = Variant("v0", [Stmt("dd", ex=["dd.in"], copy=True, rsp=("dd.rsp", "dd.in")), Stmt("out", ex=["in"], oo=["dd"], dyndep="dd"),
+                        Stmt("other", ex=["s"])])
+    T += _mk("rspfile_finish_error", [vb], tags=["rspfile", "no-conformance"], depth=2, js=(1, 2), with_faults=False, edits_during=False,
+             files={"dd.in": "ninja_dyndep_version = 1\nbuild out: dyndep |\n  garbage\n"}, touch_only=("dd.in",))
+
     # T14 outputs in subdirectories that do not exist yet
     v = Variant("v0", [Stmt("out/a/x.o", ex=["s"], hidden=["h"], depfile=True), Stmt("out/bin/exe", ex=["out/a/x.o"])])
     T += _mk("subdirs", [v], tags=["mkdirs", "depfile"], depth=d)
